@@ -362,7 +362,8 @@ Proof.
   cbn in K, F, C, D, N, Se, Ge, Di. rewrite F, D, C, N, K, P. repeat split; auto.
   unfold stale in Hst. rewrite Hd in Hst. cbn in Hst.
   unfold gen_current, survives in *. rewrite Ep, Ge, Di, Se. unfold s1; cbn.
-  destruct (u_gen u =? p_epoch s (u_dialer u)); cbn in *; auto. destruct (u_sent u); cbn in *; auto.
+  destruct (match u_gen u with 0 => false | 1 => true | S (S n) => n =? p_epoch s (u_dialer u) end); cbn in *; auto.
+  destruct (u_sent u); cbn in *; auto.
 Qed.
 
 Lemma create_handed s k d g out e :
